@@ -154,18 +154,35 @@ extern int mpt_text_set(MPT_STRUCT(text) *tx, const char *name, MPT_INTERFACE(co
 		return mpt_string_pset(&tx->_font, src);
 	}
 	if (!strcasecmp(name, "x")) {
-		if (!src || !(len = src->_vptr->convert(src, 'f', &tx->pos.x))) {
+		float val;
+		if (!src || !(len = src->_vptr->convert(src, 'f', &val))) {
 			tx->pos.x = def_text.pos.x;
 			return 0;
 		}
-		return len < 0 ? len : 0;
+		if (len < 0) {
+			return len;
+		}
+		/* same limits as complete position */
+		if (!(val >= 0.0f && val <= 1.0f)) {
+			return MPT_ERROR(BadValue);
+		}
+		tx->pos.x = val;
+		return 0;
 	}
 	if (!strcasecmp(name, "y")) {
-		if (!src || !(len = src->_vptr->convert(src, 'f', &tx->pos.y))) {
+		float val;
+		if (!src || !(len = src->_vptr->convert(src, 'f', &val))) {
 			tx->pos.y = def_text.pos.y;
 			return 0;
 		}
-		return len < 0 ? len : 0;
+		if (len < 0) {
+			return len;
+		}
+		if (!(val >= 0.0f && val <= 1.0f)) {
+			return MPT_ERROR(BadValue);
+		}
+		tx->pos.y = val;
+		return 0;
 	}
 	if (!strcasecmp(name, "pos")) {
 		static const MPT_STRUCT(range) r = { 0.0, 1.0 };
